@@ -456,7 +456,102 @@ pub fn check_killed(c: &KillCase) -> Verdict {
     Verdict::pass_c(if was_killed { Some(fp_json(c)) } else { None }, vec![format!("killed:{was_killed}:dump-ok:{}-of-{}-listed", seen.len().min(1), 1)])
 }
 
+// ---------------------------------------------------------------------------
+// the dumping thread is interrupted by signals while it collects the threads
+// ---------------------------------------------------------------------------
+
+#[derive(Debug, Clone, PartialEq, Eq, Hash, Serialize, Deserialize)]
+pub struct IntrCase {
+    pub parked: u8,
+    pub sleepers: u8,
+    pub gap_us: u16,
+    pub dumps: u8,
+}
+
+pub fn check_interrupted(c: &IntrCase) -> Verdict {
+    use crate::vcore::dest::Dest;
+    use crate::vcore::target::*;
+    use crate::vcore::world::*;
+    init_scratch();
+    let scratch = Target::new_scratch();
+    let mut b = Builder::new();
+    let mut ids = vec![];
+    let mut sps = vec![];
+    for i in 0..(1 + c.parked % 10) {
+        let st = b.add_stack(2, true, 3000 + i as u64);
+        let sp = st.base + 0x1000 + 16 * i as u64;
+        ids.push((b.add_thread(K_PARKED, Some(format!("q{i}").into_bytes()), sp, 500 + i as u64), K_PARKED));
+        sps.push(sp);
+    }
+    for i in 0..(c.sleepers % 4) {
+        ids.push((b.add_thread(K_SLEEPER, Some(format!("z{i}").into_bytes()), 0, 600 + i as u64), K_SLEEPER));
+    }
+    let spec = b.spec.clone();
+    let t = match Target::spawn(&spec, scratch) {
+        Ok(t) => t,
+        Err(e) => return Verdict::Inconclusive(format!("target setup: {}", e.split(':').next().unwrap_or(""))),
+    };
+    if !t.wait_settled(&spec) {
+        return Verdict::Inconclusive("target did not settle".into());
+    }
+    let pid = t.pid;
+    let mut want: Vec<u32> = std::iter::once(pid as u32).chain(ids.iter().map(|(id, _)| t.tid(*id) as u32)).collect();
+    want.sort();
+    let opts = DumpOpts { blamed: pid, ..Default::default() };
+    let mut classes = std::collections::BTreeSet::new();
+    let mut total_signals = 0;
+    for k in 0..(2 + c.dumps % 4) {
+        let mut w = make_writer(pid, &opts);
+        let mut dest = Dest::new(vec![], 0);
+        let (out, sent) = crate::props::c03::with_signal_storm(40 + c.gap_us as u64 % 1500, || run_dump(&mut w, &mut dest));
+        drop(w);
+        total_signals += sent;
+        match out {
+            DumpOutcome::Panic(l, m) => return panic_verdict(&l, &m),
+            DumpOutcome::Err(_) => {
+                classes.insert("dump-err".to_string());
+            }
+            DumpOutcome::Ok(img) => {
+                classes.insert("dump-ok".to_string());
+                let d = md::decode(&img);
+                let mut got: Vec<u32> = d.threads.as_ref().map(|v| v.iter().map(|t| t.tid).collect()).unwrap_or_default();
+                got.sort();
+                if got != want {
+                    return Verdict::viol("C04:interrupted:thread-set", format!("request #{k}, dumping thread interrupted by {sent} signals: listed {got:?}, the target's threads (all of which exist throughout and can be attached) are {want:?}"));
+                }
+                for (i, (id, kind)) in ids.iter().enumerate() {
+                    if *kind != K_PARKED {
+                        continue;
+                    }
+                    let tid = t.tid(*id) as u32;
+                    let th = d.threads.as_ref().unwrap().iter().find(|x| x.tid == tid).unwrap();
+                    let Some(ctx) = (if th.ctx.size != 0 && (th.ctx.rva as usize + th.ctx.size as usize) <= img.len() { md::parse_ctx(&img[th.ctx.rva as usize..(th.ctx.rva + th.ctx.size) as usize]) } else { None }) else { return Verdict::viol("C04:interrupted:context-missing", format!("thread {tid} has no decodable context")) };
+                    if ctx.gpr[4] != sps[i] {
+                        return Verdict::viol("C04:interrupted:reg:rsp", format!("parked thread {tid}: rsp {:#x}, the thread holds {:#x}", ctx.gpr[4], sps[i]));
+                    }
+                }
+            }
+        }
+        if !t.wait_settled(&spec) {
+            return Verdict::Inconclusive("target did not settle after an interrupted request".into());
+        }
+    }
+    count("signals-to-the-dumping-thread", total_signals);
+    Verdict::pass_c(Some(fp_json(c)), classes.into_iter().collect())
+}
+
 pub fn run(ctx: &mut LaneCtx) {
+    ctx.run_sub(
+        SubSpec {
+            name: "dumper-interrupted",
+            cases: (160, 6_000),
+            rule: "targets with 1..10 parked and 0..3 sleeper threads dumped 2..5 times while the DUMPING thread receives a signal with a non-restarting handler every 40..1540 us (at most 4000 per request), so that its waits for attach stops return EINTR at arbitrary instants (sampled interleavings); oracle = every request that returns Ok lists exactly the target's threads - all of which exist throughout and can be attached - and every parked thread with its planned stack pointer; every case non-trivial; distinct = hash of case",
+            strategy: (0u8..10, 0u8..4, any::<u16>(), 0u8..4).prop_map(|(parked, sleepers, gap_us, dumps)| IntrCase { parked, sleepers, gap_us, dumps }).boxed(),
+            max_shrink_iters: 40,
+            log_current: true,
+        },
+        check_interrupted,
+    );
     ctx.run_sub(
         SubSpec {
             name: "killed-mid-dump",
@@ -525,6 +620,7 @@ pub fn replay(sub: &str, case: &Value) -> Verdict {
         "pure-regs" => replay_case::<RegCase>(case, check_regs),
         "live-threads" => replay_case::<crate::props::fid::FCase>(case, judge_live),
         "killed-mid-dump" => replay_case::<KillCase>(case, check_killed),
+        "dumper-interrupted" => replay_case::<IntrCase>(case, check_interrupted),
         _ => Verdict::Inconclusive(format!("unknown sub {sub}")),
     }
 }
